@@ -59,7 +59,7 @@ def cells(tier, seed):
 
 def explore_opts(params, tier):
     cg = "cg" in params["cfg"]
-    return {"timeout_s": 2.0 if tier == "quick" else 60.0, "max_paths": 6, "norm_first": True, "path_budget_s": 90.0,
+    return {"timeout_s": 2.0 if tier == "quick" else 15.0, "max_paths": 6, "norm_first": True, "path_budget_s": 90.0,
             "engine_opts": {"cut_sites": ("linear_cg",) if cg else (), "item_whitelist": ("linear_cg",)}}
 
 
